@@ -29,9 +29,9 @@ def gen(ctx):
         if l not in seen and vals:
             seen.add(l)
             lines.append(l)
-    # (i) exhaustive small universes: every ordered list (with repetition) of <= 3 ranges over 0..T3, of <= 2 over 0..15
+    # (i) exhaustive small universes: every ordered list (with repetition) of <= 3 ranges over 0..T3, of <= 2 over 0..15 (quick: 0..9)
     t3 = 6 if ctx.thorough else 4
-    for top, maxlen in ((t3, 3), (15, 2)):
+    for top, maxlen in ((t3, 3), (15 if ctx.thorough else 9, 2)):
         rs = [(a, b) for a in range(top + 1) for b in range(a, top + 1)]
         for n in range(1, maxlen + 1):
             for combo in itertools.product(rs, repeat=n):
@@ -49,7 +49,7 @@ def gen(ctx):
     # (iii) seeded random big lists over the port space with overlaps, nesting, adjacency and duplicates
     nbig = 120 if ctx.thorough else 30
     for _ in range(nbig):
-        n = rnd.choice([5, 20, 50, 50, 200])
+        n = rnd.choice([5, 20, 50, 50, 200] if ctx.thorough else [5, 20, 50])
         vals, pts = [], set()
         for _ in range(n):
             a = rnd.choice([rnd.randrange(65536), rnd.randrange(1024), rnd.choice(edge)])
@@ -62,7 +62,7 @@ def gen(ctx):
             pts |= {a - 1, a, a + 1, b - 1, b, b + 1}
         probes = sorted(p for p in pts if 0 <= p <= 65537) + [rnd.randrange(70000) for _ in range(100)]
         rnd.shuffle(probes)
-        add([('%d' % a) if a == b and rnd.random() < 0.7 else '%d-%d' % (a, b) for a, b in vals], probes[:400])
+        add([('%d' % a) if a == b and rnd.random() < 0.7 else '%d-%d' % (a, b) for a, b in vals], probes[:400 if ctx.thorough else 150])
     return lines, nsmall
 
 
@@ -109,10 +109,10 @@ def run(ctx):
     ctx.cov['true_answers'] = sum(sum(1 for x in o['out'] if x) for o in outs)
     for o in (outs[nsmall // 2], outs[-1]):
         ctx.sample({'values': [A.txt(v) for v in o['vals']][:8], 'probes': [A.txt(p) for p in o['probes']][:10], 'answers': o['out'][:10]})
-    ctx.cov['rule'] = ('every ordered list (repetition allowed) of <= 3 ranges over 0..%d and of <= 2 ranges over 0..15, probed with every number of the '
+    ctx.cov['rule'] = ('every ordered list (repetition allowed) of <= 3 ranges over 0..%d and of <= 2 ranges over 0..%d, probed with every number of the '
                        'universe and its upper neighbour; 16-bit boundary lattice (0,1,32767/8,65533..65535; probes up to 131072) in both spellings and with '
                        'leading zeros; seeded random lists of 5..200 ranges over the port space with duplicates/adjacent/overlapping/nested values, probed at '
-                       'every endpoint +-1 and at random numbers. A case (= list) is distinct by its token list; evaluations = (list, probe) pairs.' % (6 if ctx.thorough else 4))
+                       'every endpoint +-1 and at random numbers. A case (= list) is distinct by its token list; evaluations = (list, probe) pairs.' % (6 if ctx.thorough else 4, 15 if ctx.thorough else 9))
     ctx.assumptions += ['only well-formed values are configured (squid refuses malformed or descending ranges at startup via self_destruct)',
                         'driver linked like tests/testACLMaxUserIP (+ SquidConfig, anyp, miscutil), compiled from the working tree with ASan+UBSan',
                         'ACLIntRange is reached through ConfigParser::SetCfgLine + parse(), the seam the unit tests use; the squid.conf reader above it is not exercised']
